@@ -92,3 +92,37 @@ for x in M:
     y = {k: v for k, v in x.items() if k != "prop"}
     json.dump(y, open(os.path.join(d, x["name"] + ".json"), "w"), indent=1, ensure_ascii=False)
 print(len(M), "mutants")
+
+# ---- behaviour-preserving refactorings: every listed check must stay silent ----
+B = []
+def b(name, props, file, old, new, replace_all=False, more=None, note=""):
+    d = dict(name=name, props=props, file=file, old=old, new=new, replace_all=replace_all, note=note)
+    if more:
+        d["more"] = [dict(old=o, new=n) for o, n in more]
+    B.append(d)
+b("c14-ensure-helper", ["C14","C05","C04"], "util/resolve/client.go", "\t// Ensure dependency packages exist, even though we might\n\t// not have versions for them.\n\tfor _, d := range deps {\n\t\tif _, ok := lc.PackageVersions[d.PackageKey]; !ok {\n\t\t\tlc.PackageVersions[d.PackageKey] = []Version{}\n\t\t}\n\t}\n}", "\tlc.ensurePackages(deps)\n}\n\nfunc (lc *LocalClient) ensurePackages(deps []RequirementVersion) {\n\tfor _, d := range deps {\n\t\tif _, ok := lc.PackageVersions[d.PackageKey]; !ok {\n\t\t\tlc.PackageVersions[d.PackageKey] = []Version{}\n\t\t}\n\t}\n}", note="loop extracted into a helper")
+b("c12-zero-test-first", ["C12","C01"], "util/resolve/match.go", "\t\tif c := vi.Compare(vj); c != 0 {\n\t\t\treturn c < 0\n\t\t}\n\t\t// Distinct strings may denote the same version (1.0, 1.0.0).\n\t\treturn vs[i].Version < vs[j].Version\n", "\t\tc := vi.Compare(vj)\n\t\tif c == 0 {\n\t\t\treturn vs[i].Version < vs[j].Version\n\t\t}\n\t\treturn c < 0\n", note="tie-break written the other way round")
+b("c13-skip-short-error-lists", ["C13"], "util/resolve/graph.go", "\tfor _, n := range g.Nodes {\n\t\tsort.Slice(n.Errors, func(i, j int) bool {", "\tfor _, n := range g.Nodes {\n\t\tif len(n.Errors) < 2 {\n\t\t\tcontinue\n\t\t}\n\t\tsort.Slice(n.Errors, func(i, j int) bool {", note="nothing to sort below two errors")
+b("c04-rename-nameEnd", ["C04","C16"], "util/pypi/metadata.go", "nameEnd", "nameStop", replace_all=True, note="local variable renamed")
+b("c05-copy-idiom", ["C05","C07"], "util/resolve/maven/resolve.go", "\t\t\tversions = slices.Clone(versions)\n", "\t\t\tversions = append([]resolve.Version(nil), versions...)\n", note="another fresh-copy idiom")
+b("c07-edge-source-variable", ["C07","C04"], "util/resolve/maven/resolve.go", "\t\t\tmatchID := g.AddNode(match.VersionKey)\n", "\t\t\tsrcID := concreteVersions[cur.versionKey]\n\t\t\t_ = srcID\n\t\t\tmatchID := g.AddNode(match.VersionKey)\n", note="extra local")
+b("c19-maps-clone", ["C19","C05","C13"], "util/resolve/internal/attr/set.go", "\tc := Set{\n\t\tMask:     s.Mask,\n\t\tattrs:    make(map[uint8]string, len(s.attrs)),\n\t\tattrBits: s.attrBits,\n\t}\n\tfor k, v := range s.attrs {\n\t\tc.attrs[k] = v\n\t}\n\treturn c", "\tc := Set{\n\t\tMask:     s.Mask,\n\t\tattrs:    maps.Clone(s.attrs),\n\t\tattrBits: s.attrBits,\n\t}\n\tif c.attrs == nil {\n\t\tc.attrs = map[uint8]string{}\n\t}\n\treturn c", more=[("import (\n\t\"math/bits\"", "import (\n\t\"maps\"\n\t\"math/bits\"")], note="Clone through maps.Clone")
+b("c18-lock-early-unlock", ["C18"], "util/resolve/api.go", "\ta.bundledVersionsMu.Lock()\n\tdefer a.bundledVersionsMu.Unlock()\n\tbv, ok := a.bundledVersions[name]\n\treturn bv, ok", "\ta.bundledVersionsMu.Lock()\n\tbv, ok := a.bundledVersions[name]\n\ta.bundledVersionsMu.Unlock()\n\treturn bv, ok", note="explicit unlock instead of defer")
+b("c06-alias-local", ["C06","C04"], "util/resolve/npm/resolve.go", "\t\treturn cur.aliasProtected[ipk.Name]\n", "\t\tname := ipk.Name\n\t\treturn cur.aliasProtected[name]\n", note="key through a local")
+b("c15-rename-resolving", ["C15","C04"], "util/maven/string.go", "resolving", "inProgress", replace_all=True, note="parameter renamed")
+b("c01-sgn-inline", ["C01"], "util/semver/pep440.go", "\t\tif s := sgn(pExt.devNum, qExt.devNum); s != 0 {\n\t\t\treturn s\n\t\t}", "\t\tif pExt.devNum != qExt.devNum {\n\t\t\treturn sgn(pExt.devNum, qExt.devNum)\n\t\t}", note="comparison restructured")
+os.makedirs("/verif/mutants/benign", exist_ok=True)
+for x in B:
+    json.dump({k: v for k, v in x.items() if k != "name"}, open(os.path.join("/verif/mutants/benign", x["name"] + ".json"), "w"), indent=1, ensure_ascii=False)
+print(len(B), "benign refactorings")
+# benign cases aimed at the rules added after seeding rounds
+b("c14-version-loop-index", ["C14"], "util/resolve/client.go", "\tfor _, v := range lc.PackageVersions[vk.PackageKey] {\n\t\tif v.VersionKey == vk {\n\t\t\treturn v, nil\n\t\t}\n\t}", "\tvs := lc.PackageVersions[vk.PackageKey]\n\tfor i := range vs {\n\t\tif vs[i].VersionKey == vk {\n\t\t\treturn vs[i], nil\n\t\t}\n\t}", note="index loop instead of range value")
+b("c13-hasdupe-root-first", ["C13"], "util/resolve/graph.go", "\t\tif n.Nodes[i-1].Compare(n.Nodes[i]) == 0 {\n\t\t\treturn true\n\t\t}\n\t\tif n.KeepZero && i > 1 && n.Nodes[0].Compare(n.Nodes[i]) == 0 {\n\t\t\treturn true\n\t\t}", "\t\tif n.KeepZero && i > 1 && n.Nodes[0].Compare(n.Nodes[i]) == 0 {\n\t\t\treturn true\n\t\t}\n\t\tif n.Nodes[i-1].Compare(n.Nodes[i]) == 0 {\n\t\t\treturn true\n\t\t}", note="the two checks swapped, both still made")
+b("c07-exclusions-copy-first", ["C07","C05"], "util/resolve/maven/resolve.go", "\t\t\t\tmergeExclusions(d.exclusions, cur.exclusions)\n\t\t\t\tn.exclusions = d.exclusions", "\t\t\t\tmerged := make(map[string]bool, len(d.exclusions)+len(cur.exclusions))\n\t\t\t\tmergeExclusions(merged, cur.exclusions)\n\t\t\t\tmergeExclusions(merged, d.exclusions)\n\t\t\t\tn.exclusions = merged", note="union built in a fresh map")
+b("c18-sort-local-alias", ["C18","C04"], "util/resolve/api.go", "\tbundled := reqs.GetBundled()\n\tsort.Slice(bundled, func(i, j int) bool {\n\t\treturn len(bundled[i].Path) < len(bundled[j].Path)\n\t})", "\tbundled := reqs.GetBundled()\n\tsort.SliceStable(bundled, func(a, b int) bool {\n\t\treturn len(bundled[a].Path) < len(bundled[b].Path)\n\t})", note="stable sort, renamed indices")
+b("c05-cache-err-style", ["C05"], "util/resolve/pypi/resolve.go", "\tm, err := parseMarker(raw)\n\tif err != nil {\n\t\treturn nil, err\n\t}\n\tp.markerCache.Add(raw, m)\n\treturn m, nil", "\tm, err := parseMarker(raw)\n\tif err == nil {\n\t\tp.markerCache.Add(raw, m)\n\t\treturn m, nil\n\t}\n\treturn nil, err", note="success branch first")
+b("c12-tags-set", ["C12"], "util/resolve/match.go", "\t\t\tfor _, tag := range strings.Split(tags, \",\") {\n\t\t\t\tif req.Version == tag {\n\t\t\t\t\treturn []Version{v}\n\t\t\t\t}\n\t\t\t}", "\t\t\tif slices.Contains(strings.Split(tags, \",\"), req.Version) {\n\t\t\t\treturn []Version{v}\n\t\t\t}", more=[("import (\n\t\"sort\"", "import (\n\t\"slices\"\n\t\"sort\"")], note="slices.Contains on the split tags")
+b("c16-marker-err-wrap", ["C16","C04"], "util/resolve/pypi/markers.go", "\t\tc, err := semver.PyPI.ParseConstraint(o.String() + r.value)\n\t\tif err != nil {\n\t\t\treturn nil, err\n\t\t}", "\t\tc, err := semver.PyPI.ParseConstraint(o.String() + r.value)\n\t\tif err != nil {\n\t\t\treturn nil, fmt.Errorf(\"marker constraint: %w\", err)\n\t\t}", note="error wrapped")
+for x in B:
+    json.dump({k: v for k, v in x.items() if k != "name"}, open(os.path.join("/verif/mutants/benign", x["name"] + ".json"), "w"), indent=1, ensure_ascii=False)
+print(len(B), "benign refactorings (total)")
